@@ -89,6 +89,8 @@ structure ItemInfo where
   name : List Char
   /-- a type whose `TypeKind` is in the list auto-allowlisted when not recursive -/
   autoKind : Bool
+  /-- a type whose `TypeKind` satisfies `syntheticTypeKind` -/
+  syntheticKind : Bool := false
   /-- the parent item is a module -/
   parentIsModule : Bool
   /-- `Some(names)` for an `Enum` type without a name: for each variant,
@@ -162,6 +164,31 @@ def compute (g : Graph) (o : Options) (items : List ItemInfo) (enabled blocklist
       | none => none
       | some cg => some ⟨al, cg⟩
     else some ⟨al, al⟩
+
+/-! ### regions of the known findings -/
+
+/-- `TypeKind`s of type items that have no declaration of their own; bindgen gives them synthetic
+names (`ptr_struct_S`, `_bindgen_ty_id_7`, ...) which `path_for_allowlisting` returns like any other. -/
+def syntheticTypeKind (k : String) : Bool :=
+  k ∈ ["Pointer", "Reference", "Array", "Vector", "Function", "ResolvedTypeRef", "BlockPointer"]
+
+/-- Region `synthetic_names_match`: a type item without a declaration of its own is a root because its
+synthetic name matches a type / item pattern. -/
+def syntheticRoot (o : Options) (it : ItemInfo) : Bool :=
+  it.cls == .type && it.syntheticKind && (o.types.matches it.name || o.items.matches it.name)
+
+/-- Anonymous items are numbered (`_bindgen_ty_N`) by `Item::local_id`, which is assigned lazily, in
+the order in which names are first requested.  `localId reqs x` = the number `x` gets. -/
+def localId (requests : List Nat) (x : Nat) : Option Nat :=
+  (requests.eraseDups.idxOf? x).map (· + 1)
+
+/-- the items whose name the root filter computes (it returns before computing the name when nothing
+is allow-listed, for `replaces` items and for items of an allow-listed file) -/
+def nameRequestedByRootFilter (o : Options) (it : ItemInfo) : Bool :=
+  if o.types.isEmpty && o.functions.isEmpty && o.vars.isEmpty && o.files.isEmpty && o.items.isEmpty then false
+  else if it.useInsteadOf then false
+  else if (!o.files.isEmpty) && (match it.file with | some f => o.files.matches f | none => false) then false
+  else true
 
 /-! ### what code generation mentions -/
 
